@@ -68,8 +68,11 @@ func datumTransform(source, dest *datum, x, y, z float64) (float64, float64, flo
 		}*/
 	}
 	if dest.datum_type == pjdGridShift {
-		dest.a = srsWGS84SemiMajor
-		dest.es = srsWGS84ESquared
+		// Grid shifts are not supported (apply_gridshift is not ported). Fail here,
+		// before the shared destination datum is modified: a failed call must not
+		// change the answers of other transformers that use the same reference.
+		err := fmt.Errorf("in proj.datumTransform: gridshift not supported")
+		return math.NaN(), math.NaN(), math.NaN(), err
 	}
 	// Do we need to go through geocentric coordinates?
 	if source.es != dest.es || source.a != dest.a || checkDatumParams(fallback) ||
@@ -92,13 +95,6 @@ func datumTransform(source, dest *datum, x, y, z float64) (float64, float64, flo
 		}
 		// Convert back to geodetic coordinates
 		x, y, z = dest.geocentric_to_geodetic(x, y, z)
-		// CHECK_RETURN;
-	}
-	// Apply grid shift to destination if required
-	if dest.datum_type == pjdGridShift {
-		err := fmt.Errorf("in proj.datumTransform: gridshift not supported")
-		return math.NaN(), math.NaN(), math.NaN(), err
-		//this.apply_gridshift(dest, 1, x, y, z)
 		// CHECK_RETURN;
 	}
 
